@@ -65,6 +65,17 @@ CHECKS.update({
     note="Trusted: TLC, Header.tla, the isinstance(HL7apyException) test done by the harness. Agreement between the transcription's outcome class and the real get_message_type is reported as drift only.",
     ref="DESIGN.md §4 C15, §3.8"),
 })
+_GRP_TECH = "TLA+ reference of group finding (GroupFinder.tla: Sound, Flatten, Prescribed) model-checked by TLC on small structures x all short inputs; instances generated from every real message structure parsed by the real parser, the observed tree / encodings judged by the TLC trace specification GroupTrace (which also evaluates the Er7 leaf sequences)"
+CHECKS.update({
+ "C08": dict(technique=_GRP_TECH,
+    text="TLC shows on a family of small structures x all inputs up to length 6 that the prescription is sound, flattens to its input and leaves no group empty. For message structures of all versions (quick: 22 per version; thorough: all ~2000) instances are generated - required-only, all-children, each optional node toggled, each repeatable group repeated 2x / 3x with all children, nested repetition, repeated segments - parsed with and without group finding, and TLC decides: every row is a declared child of its parent, the flattening equals the input, both encodings are equal, the tree equals the prescribed one when every segment name occurs at one place, and the message validates at segment/group level.",
+    note="Trusted: TLC, GroupFinder.tla (a non-repeatable group whose member recurs propagates the repetition to the innermost repeatable enclosing group), the projection through .children. Structures with the ANYHL7SEGMENT placeholder are skipped (counted in the evidence notes). Known finding: NMD_N02-like nesting.",
+    ref="DESIGN.md §4 C08, §3.4"),
+ "C03": dict(technique=_GRP_TECH,
+    text="Instances of message structures (quick: 7 per version; thorough: all) with rich segment lines (repetitions, components, subcomponents, fields beyond the defined count) and perturbations (Z / foreign segment after MSH, in the middle, at the end; duplicated member; run of Z-segments; reversed order) are parsed with and without group finding; TLC parses input and output lines with the Er7 reference grammar and requires the same segment names in the same order and, per segment, the same sequence of non-empty leaves - or an exception.",
+    note="Trusted: TLC, Er7.tla, GroupTrace.tla. Known findings: content at withdrawn field positions is moved behind the defined fields; PV1-52 / ORO-3 table defects.",
+    ref="DESIGN.md §4 C03, §3.4"),
+})
 NOT_YET = {}
 def main():
     props = [json.loads(l) for l in open(os.path.join(HERE, "properties.jsonl"))]
